@@ -21,17 +21,28 @@
 //	                                                                   data decodable from what carriers i, j.. received
 //	  -> accepted=<n> st=<j>:x<stream>,.. stray=<n> k<i>=<open|closed>:x<downstream bytes> ...
 //
+//	carrierlayer bulk i<8 hex scenario id>,<total bytes>,<cut after bytes>,<gap ms>,<seed>
+//	  a REAL client as client/lib builds it (kcp-go + smux v2 with client/lib's settings over a packet conn that can be
+//	  re-bound to a new carrier: no carrier = reads block, writes are dropped), one WebSocket carrier, one stream. The
+//	  application behind Accept writes <total> pattern bytes; once the client has <cut after> of them it closes its
+//	  carrier, stays without any carrier for <gap ms> (really waited: the gap is the scenario), dials a new carrier
+//	  with the same ClientID and reads on.
+//	  -> accepted=<n> got=<bytes the client received> intact=<0|1: they are the first got bytes written> werr=<0|1: the
+//	     application's Write failed> stray=<n>
+//
 // The application bytes of session j of a scenario begin with the 4-byte scenario id and the byte j: that is how an
 // accepted connection is attributed to its scenario (stray = connections whose label belongs to no running scenario).
 package main
 
 import (
 	"bufio"
+	"bytes"
 	"encoding/binary"
 	"encoding/hex"
 	"fmt"
 	"io"
 	"log"
+	"math/rand"
 	"net"
 	"os"
 	"strconv"
@@ -40,8 +51,13 @@ import (
 	"sync/atomic"
 	"time"
 
+	"git.torproject.org/pluggable-transports/snowflake.git/v2/common/encapsulation"
+	"git.torproject.org/pluggable-transports/snowflake.git/v2/common/turbotunnel"
+	"git.torproject.org/pluggable-transports/snowflake.git/v2/common/websocketconn"
 	sf "git.torproject.org/pluggable-transports/snowflake.git/v2/server/lib"
 	"github.com/gorilla/websocket"
+	"github.com/xtaci/kcp-go/v5"
+	"github.com/xtaci/smux"
 )
 
 type bbConn struct {
@@ -457,6 +473,268 @@ func runScenario(ops string) string {
 	return out
 }
 
+// ---- bulk downstream transfer across a carrier gap: a real client (kcp-go + smux, as client/lib sets them up)
+
+type bulkAddr struct{}
+
+func (bulkAddr) Network() string { return "bulk" }
+func (bulkAddr) String() string  { return "bulk" }
+
+// bulkPconn: packets over the current carrier stream (encapsulation framing, what client/lib does over WebRTC); it can
+// be re-bound to a new carrier. Without a carrier ReadFrom blocks and WriteTo drops (client/lib's RedialPacketConn).
+type bulkPconn struct {
+	mu     sync.Mutex
+	cond   *sync.Cond
+	conn   net.Conn // nil: no carrier
+	gen    int
+	closed bool
+	wmu    sync.Mutex
+}
+
+func newBulkPconn() *bulkPconn {
+	c := &bulkPconn{}
+	c.cond = sync.NewCond(&c.mu)
+	return c
+}
+
+func (c *bulkPconn) bind(conn net.Conn) {
+	c.mu.Lock()
+	c.conn = conn
+	c.gen++
+	c.mu.Unlock()
+	c.cond.Broadcast()
+}
+
+func (c *bulkPconn) ReadFrom(p []byte) (int, net.Addr, error) {
+	for {
+		c.mu.Lock()
+		for c.conn == nil && !c.closed {
+			c.cond.Wait()
+		}
+		if c.closed {
+			c.mu.Unlock()
+			return 0, bulkAddr{}, io.ErrClosedPipe
+		}
+		conn, gen := c.conn, c.gen
+		c.mu.Unlock()
+		data, err := encapsulation.ReadData(conn)
+		if err != nil {
+			c.mu.Lock()
+			if c.gen == gen {
+				c.conn = nil // this carrier is over: wait for the next one
+			}
+			c.mu.Unlock()
+			continue
+		}
+		return copy(p, data), bulkAddr{}, nil
+	}
+}
+
+func (c *bulkPconn) WriteTo(p []byte, addr net.Addr) (int, error) {
+	c.mu.Lock()
+	conn := c.conn
+	c.mu.Unlock()
+	if conn == nil {
+		return len(p), nil
+	}
+	var b bytes.Buffer
+	encapsulation.WriteData(&b, p)
+	c.wmu.Lock()
+	conn.Write(b.Bytes()) // a failed write is a lost packet
+	c.wmu.Unlock()
+	return len(p), nil
+}
+
+func (c *bulkPconn) Close() error {
+	c.mu.Lock()
+	c.closed = true
+	conn := c.conn
+	c.conn = nil
+	c.mu.Unlock()
+	c.cond.Broadcast()
+	if conn != nil {
+		conn.Close()
+	}
+	return nil
+}
+func (c *bulkPconn) LocalAddr() net.Addr                { return bulkAddr{} }
+func (c *bulkPconn) SetDeadline(t time.Time) error      { return nil }
+func (c *bulkPconn) SetReadDeadline(t time.Time) error  { return nil }
+func (c *bulkPconn) SetWriteDeadline(t time.Time) error { return nil }
+
+func bulkPattern(k int, seed int) byte { return byte(k*31 + k>>8 + seed) }
+
+func runBulk(arg string) string {
+	f := strings.Split(arg, ",")
+	if len(f) != 5 || !strings.HasPrefix(f[0], "i") || len(f[0]) != 9 {
+		return "!badcase"
+	}
+	var id [4]byte
+	copy(id[:], unhex(f[0][1:]))
+	var nums [4]int
+	for i := range nums {
+		n, err := strconv.Atoi(f[i+1])
+		if err != nil || n < 0 {
+			return "!badcase"
+		}
+		nums[i] = n
+	}
+	total, cut, gap, seed := nums[0], nums[1], nums[2], nums[3]
+	sc := &bbScen{}
+	regMu.Lock()
+	reg[id] = sc
+	regMu.Unlock()
+	var closers []io.Closer
+	defer func() {
+		for i := len(closers) - 1; i >= 0; i-- {
+			closers[i].Close()
+		}
+		regMu.Lock()
+		delete(reg, id)
+		regMu.Unlock()
+		sc.mu.Lock()
+		for _, bc := range sc.conns {
+			bc.c.Close()
+		}
+		sc.mu.Unlock()
+	}()
+	// the ClientID: 8 bytes, from the seed and the scenario id (distinct per scenario)
+	var cid turbotunnel.ClientID
+	rnd := rand.New(rand.NewSource(int64(seed)<<32 | int64(binary.BigEndian.Uint32(id[:]))))
+	rnd.Read(cid[:])
+	dial := func() (net.Conn, string) {
+		ws, _, err := websocket.DefaultDialer.Dial(base+"?client_ip=192.0.2.9", nil)
+		if err != nil {
+			return nil, "!dial:" + err.Error()
+		}
+		conn := websocketconn.New(ws)
+		closers = append(closers, conn)
+		if _, err := conn.Write(append(append([]byte{}, turbotunnel.Token[:]...), cid[:]...)); err != nil {
+			return nil, "!hello:" + err.Error()
+		}
+		return conn, ""
+	}
+	pconn := newBulkPconn()
+	closers = append(closers, pconn)
+	car0, e := dial()
+	if e != "" {
+		return e
+	}
+	pconn.bind(car0)
+	kc, err := kcp.NewConn2(bulkAddr{}, nil, 0, 0, pconn)
+	if err != nil {
+		return "!kcp:" + err.Error()
+	}
+	closers = append(closers, kc)
+	kc.SetStreamMode(true)
+	kc.SetWindowSize(sf.WindowSize, sf.WindowSize)
+	kc.SetNoDelay(0, 0, 0, 1)
+	cfg := smux.DefaultConfig()
+	cfg.Version = 2
+	cfg.KeepAliveTimeout = 10 * time.Minute
+	cfg.MaxStreamBuffer = sf.StreamSize
+	sess, err := smux.Client(kc, cfg)
+	if err != nil {
+		return "!smux:" + err.Error()
+	}
+	closers = append(closers, sess)
+	stream, err := sess.OpenStream()
+	if err != nil {
+		return "!stream:" + err.Error()
+	}
+	closers = append(closers, stream)
+	if _, err := stream.Write(append(append([]byte{}, id[:]...), 0)); err != nil {
+		return "!label:" + err.Error()
+	}
+	// the application behind Accept: writes the pattern on the accepted connection
+	var werr int32
+	go func() {
+		deadline := time.Now().Add(waitLimit)
+		var bc *bbConn
+		for bc == nil && time.Now().Before(deadline) {
+			sc.mu.Lock()
+			if len(sc.conns) > 0 {
+				bc = sc.conns[0]
+			}
+			sc.mu.Unlock()
+			if bc == nil {
+				time.Sleep(3 * time.Millisecond)
+			}
+		}
+		if bc == nil {
+			return // accepted=0 says it
+		}
+		buf := make([]byte, 1<<15)
+		for k := 0; k < total; {
+			n := len(buf)
+			if total-k < n {
+				n = total - k
+			}
+			for i := 0; i < n; i++ {
+				buf[i] = bulkPattern(k+i, seed)
+			}
+			if _, err := bc.c.Write(buf[:n]); err != nil {
+				atomic.StoreInt32(&werr, 1)
+				fmt.Fprintln(os.Stderr, "bulk: app write after", k, "bytes:", err)
+				return
+			}
+			k += n
+		}
+	}()
+	// the client: reads; cut + gap + new carrier once <cut> bytes are there
+	var got int64
+	intact := int32(1)
+	done := make(chan struct{})
+	go func() {
+		defer close(done)
+		buf := make([]byte, 1<<15)
+		k := 0
+		for k < total {
+			n, err := stream.Read(buf)
+			for i := 0; i < n; i++ {
+				if buf[i] != bulkPattern(k+i, seed) {
+					atomic.StoreInt32(&intact, 0)
+				}
+			}
+			k += n
+			atomic.StoreInt64(&got, int64(k))
+			if err != nil {
+				return
+			}
+		}
+	}()
+	limit := time.After(waitLimit)
+	finished := false
+	for !finished && int(atomic.LoadInt64(&got)) < cut {
+		select {
+		case <-done:
+			finished = true
+		case <-limit:
+			finished = true
+		case <-time.After(time.Millisecond):
+		}
+	}
+	if !finished {
+		pconn.bind(nil)
+		car0.Close()
+		time.Sleep(time.Duration(gap) * time.Millisecond) // the gap IS the scenario
+		car1, e := dial()
+		if e != "" {
+			return e
+		}
+		pconn.bind(car1)
+		select {
+		case <-done:
+		case <-time.After(waitLimit):
+		}
+	}
+	sc.mu.Lock()
+	acc := len(sc.conns)
+	sc.mu.Unlock()
+	return fmt.Sprintf("accepted=%d got=%d intact=%d werr=%d stray=%d", acc, atomic.LoadInt64(&got), atomic.LoadInt32(&intact),
+		atomic.LoadInt32(&werr), atomic.LoadInt64(&stray))
+}
+
 func main() {
 	log.SetOutput(io.Discard)
 	ln, err := startServer()
@@ -487,11 +765,14 @@ func main() {
 				}
 			}()
 			a := strings.Split(line, " ")
-			if len(a) != 3 || a[1] != "move" {
+			switch {
+			case len(a) == 3 && a[1] == "move":
+				res[idx] = runScenario(a[2])
+			case len(a) == 3 && a[1] == "bulk":
+				res[idx] = runBulk(a[2])
+			default:
 				res[idx] = "!badcase"
-				return
 			}
-			res[idx] = runScenario(a[2])
 		}()
 	}
 	wg.Wait()
